@@ -73,11 +73,12 @@ const (
 	KSM2
 	KEd25519
 	KEth
+	KSecp256k1 // generic ECDSA key (algorithm byte 0x12) on the secp256k1 curve, NOT the ethereum key type
 	numKinds
 )
 
 func (k KeyKind) String() string {
-	return [...]string{"P256", "P224", "P384", "P521", "SM2", "Ed25519", "EthSecp256k1"}[k]
+	return [...]string{"P256", "P224", "P384", "P521", "SM2", "Ed25519", "EthSecp256k1", "EcdsaSecp256k1"}[k]
 }
 
 // ZooKey is an account plus its kind.
@@ -146,6 +147,9 @@ func Key(kind KeyKind, i int) *ZooKey {
 		pk := ec.ConstructPrivateKey(d[:], ethcrypto.S256())
 		pri, pub = keypair.FromEthereumPrivateKey(pk)
 		scheme = s.KECCAK256WithECDSA
+	case KSecp256k1:
+		mk(ethcrypto.S256(), ec.ECDSA)
+		scheme = s.SHA256withECDSA
 	default:
 		panic("bad kind")
 	}
